@@ -360,6 +360,18 @@ let eval (fn : string) (args : string list) : string =
                 | _ -> failwith "refs op")
       | 'q' -> Some (match refsLookup !m (bytes_of_hex body) with Some d -> "h" ^ hex_of_bytes d | None -> "n")
       | _ -> failwith "refs op") (split_on ' ' prog))
+  | "SegValueHeap", [src; extra; a; b; p; f] ->
+    let doc = bytes_of_hex src in
+    let n = List.length doc and ex = int_of_string extra in
+    let arr = doc @ List.init ex (fun _ -> n_of_int 88) in
+    let h = { h_arrays = [arr]; h_stores = [] } in
+    let buf = { sl_arr = nat_of_int 0; sl_off = nat_of_int 0; sl_len = nat_of_int n; sl_cap = nat_of_int (n + ex) } in
+    let t = { g_start = nat_of_int (int_of_string a); g_stop = nat_of_int (int_of_string b); g_pad = nat_of_int (int_of_string p); g_fnl = (f = "1") } in
+    (match seg_value_h h buf t with
+     | None -> "PANIC"
+     | Some (h', r) ->
+       let stored = List.exists (fun (ar, _) -> int_of_nat ar = 0) h'.h_stores in
+       Printf.sprintf "%s:%s:%s" (s_of_bool stored) (s_of_bool (int_of_nat r.sl_arr = 0 && int_of_nat r.sl_cap > 0)) (hex_of_bytes (sl_bytes h' r)))
   | "Prio", [role; d] -> prio_case role d
   | "IdsProg", [ops] -> ids_case ops
   | "Bufio", [size; limit; ops] -> bufio_case (int_of_string size) (int_of_string limit) ops
